@@ -9,6 +9,7 @@ Theorem C02_sound : forall (A : Type) (docs : list (key * document A)) req perm 
   disclosed (prepare_response docs req perm) dt ns it ->
   exists id, requested req dt ns id /\ is_permitted perm dt ns id /\ held docs dt ns id it.
 Proof. exact (@sound). Qed.
+Print Assumptions C02_sound.
 
 (* no document type or namespace appears in the response (not even in an error list) unless it
    is in the request being answered and in the permitted map *)
@@ -20,12 +21,14 @@ Theorem C02_nothing_unrequested : forall (A : Type) (docs : list (key * document
      (forall ns ids, In (ns, ids) (pd_errors pd) ->
         (exists rq, In (pd_doc_type pd, rq) req /\ aget ns rq <> None) /\ exists e, In (ns, e) nss)).
 Proof. exact (@nothing_unrequested). Qed.
+Print Assumptions C02_nothing_unrequested.
 
 Theorem C02_document_errors_requested : forall (A : Type) (docs : list (key * document A)) req perm dt,
   document_error (prepare_response docs req perm) dt ->
   (exists rq, In (dt, rq) req) /\ (exists nss, In (dt, nss) perm) /\
   (aget dt docs = None \/ exists d, aget dt docs = Some d /\ d_can_sign d = false).
 Proof. exact (@document_errors_requested). Qed.
+Print Assumptions C02_document_errors_requested.
 
 (* every requested and permitted element is disclosed (the held item) or listed with an error;
    a docType that is not held (or cannot sign) is listed as a document error *)
@@ -46,11 +49,13 @@ Theorem C02_complete : forall (A : Type) (docs : list (key * document A)) req pe
     else document_error (prepare_response docs req perm) dt
   end.
 Proof. exact (@complete). Qed.
+Print Assumptions C02_complete.
 
 (* nothing of an earlier round survives prepare_response *)
 Theorem C02_round_isolated : forall (d : dev) (st : dstate) docs errs,
   dev_prepare (set_state d st) docs errs = dev_prepare d docs errs.
 Proof. exact prepare_forgets_state. Qed.
+Print Assumptions C02_round_isolated.
 
 Example C02_ex :
   let dt := [100] in let ns := [110] in
